@@ -8,6 +8,7 @@ import Operon.Model.Wiring
   handler N raise | retnone | ret p:raw:k p:typed:dt:il:k …        register_module with a scripted handler
   ext M P raw k | ext M P typed dt il k     external_inputs[M][P] = …
   exec E                                    execute(external_inputs or None, enforce_static_checks=E); E = d: default
+  handler2 N … / exec2 E                    the same on a SECOND DiagramExecutor built on the same diagram
   caps | caps2                              required_capabilities() of the diagram / of a second diagram
   share N                                   second_diagram.add_module(<the same ModuleSpec object as module N>)
   mod2 N I … O … C …                        second_diagram.add_module(fresh spec)
@@ -37,6 +38,7 @@ structure DSt where
   d : Diagram := {}
   d2 : Diagram := {}      -- a second diagram that may share ModuleSpec objects with the first
   hs : List (Nat × Script) := []
+  hs2 : List (Nat × Script) := []   -- handler table of a second executor on the same diagram
   shared : List Nat := []  -- modules whose ModuleSpec OBJECT is also registered in the second diagram
   ext : List (Nat × List (Nat × Val)) := []
 
@@ -116,6 +118,61 @@ def showCoerce : Except Err TV → String
   | .ok t => s!"ok {t.dt}/{t.il}/{t.payload}"
   | .error e => showErr e ++ " ## " ++ errTag e
 
+/-- the scripted handler of a `handler` line:
+    xraise CLS MSG MODE SIG entries…: raises CLS (at the first invocation of an execute() or always; with the
+    real code a handler is invoked at most once per execute(), so both raise); retd / retv: like ret, other
+    call signatures -/
+def parseScript (kind : String) (rest : List String) : Option Script :=
+  let falsy := ["zero", "emptystr", "emptylist", "emptytuple", "false", "emptyset"]
+  let mappings := ["userdict", "proxy", "odict"]
+  match kind with
+  | "raise" => some (.raise "RuntimeError")
+  | "xraise" => some (.raise (rest.headD "RuntimeError"))
+  | "retnone" => some (.ret [])
+  | "retobj" =>
+    let k := rest.headD ""
+    if falsy.contains k then some (.ret [])
+    else if mappings.contains k then some (.ret ((rest.drop 1).filterMap parseScriptEntry))
+    else if ["list", "tuple", "str", "int", "set", "gen"].contains k then some .nondict
+    else none
+  | "reenter" => some (.ret (rest.filterMap parseScriptEntry) true false)
+  | "mut" =>
+    if ["del", "add", "relabel", "clear"].contains (rest.headD "") then
+      some (.ret ((rest.drop 1).filterMap parseScriptEntry) false true)
+    else none
+  | _ => some (.ret (rest.filterMap parseScriptEntry))
+
+/-- `execute` of the executor whose handler table is `hs` -/
+def runExec (st : DSt) (hs : List (Nat × Script)) (e : String) : String :=
+  let r := execute st.d (handlerTable hs) st.ext (e == "d" || boolOf e)   -- "d": the default, True
+  let isMut (n : Nat) : Bool := match hs.lookup n with | some (.ret _ _ true) => true | _ => false
+  let isRe (n : Nat) : Bool := match hs.lookup n with | some (.ret _ true _) => true | _ => false
+  match r.out with
+  | .ok recs =>
+    let inner := (r.calls.filter (isRe ·.name)).map fun _ => "ok"
+    joinSp (["ok", "order=" ++ showList (recs.map (toString ·.name)), "calls=" ++ showCalls r.calls,
+      "mods=" ++ showSemi (recs.map fun r =>
+        s!"{r.name}<{if isMut r.name then "?" else showTVs r.inputs}|{showTVs r.outputs}>")]
+      ++ (if inner.isEmpty then [] else ["inner=" ++ showSemi inner]))
+  | .error e =>
+    -- the exception of a raising handler is the one of the last invocation
+    let shown := match e with
+      | .handlerRaised =>
+        (match r.calls.getLast? with
+         | some c => (match hs.lookup c.name with
+                      | some (.raise cls) => "raise:" ++ cls
+                      | _ => showErr e)
+         | none => showErr e)
+      | _ => showErr e
+    let inner := (r.calls.filter (isRe ·.name)).map fun _ => shown
+    joinSp ([shown, "calls=" ++ showCalls r.calls]
+      ++ (if inner.isEmpty then [] else ["inner=" ++ showSemi inner]))
+
+def execTag (st : DSt) (hs : List (Nat × Script)) (e : String) : String :=
+  match (execute st.d (handlerTable hs) st.ext (e == "d" || boolOf e)).out with
+  | .ok _ => "ok"
+  | .error e => errTag e
+
 /-- in-place edit of module `n`'s spec; the spec object may be registered in the second diagram as well (one
     object, two dicts pointing at it) -/
 def portEdit (st : DSt) (op n : String) (e : SpecEdit) : DSt × String :=
@@ -139,63 +196,25 @@ def step (st : DSt) (toks : List String) : DSt × String :=
     ({ st with d := { modules := st.d.modules, wires := st.d.wires ++ [⟨natD a, natD p, natD b, natD q⟩] } },
      "ok ## rawwire")
   | "handler" :: n :: kind :: rest =>
-    -- xraise CLS MSG MODE SIG entries…: raises CLS (at the first invocation of an execute() or always; with the
-    -- real code a handler is invoked at most once per execute(), so both raise); retd / retv: like ret, other
-    -- call signatures
-    let falsy := ["zero", "emptystr", "emptylist", "emptytuple", "false", "emptyset"]
-    let mappings := ["userdict", "proxy", "odict"]
-    let sc : Option Script := match kind with
-      | "raise" => some (.raise "RuntimeError")
-      | "xraise" => some (.raise (rest.headD "RuntimeError"))
-      | "retnone" => some (.ret [])
-      | "retobj" =>
-        let k := rest.headD ""
-        if falsy.contains k then some (.ret [])
-        else if mappings.contains k then some (.ret ((rest.drop 1).filterMap parseScriptEntry))
-        else if ["list", "tuple", "str", "int", "set", "gen"].contains k then some .nondict
-        else none
-      | "reenter" => some (.ret (rest.filterMap parseScriptEntry) true false)
-      | "mut" =>
-        if ["del", "add", "relabel", "clear"].contains (rest.headD "") then
-          some (.ret ((rest.drop 1).filterMap parseScriptEntry) false true)
-        else none
-      | _ => some (.ret (rest.filterMap parseScriptEntry))
-    match sc with
+    match parseScript kind rest with
     | none => (st, "bad-op")
     | some sc =>
       if (st.d.findMod (natD n)).isNone then (st, showErr .unknownModule ++ " ## handler:unknownModule")
       else ({ st with hs := setKey (natD n) sc st.hs }, s!"ok ## handler:{kind}")
+  | "handler2" :: n :: kind :: rest =>      -- the same on a SECOND executor built on the same diagram
+    match parseScript kind rest with
+    | none => (st, "bad-op")
+    | some sc =>
+      if (st.d.findMod (natD n)).isNone then (st, showErr .unknownModule ++ " ## handler2:unknownModule")
+      else ({ st with hs2 := setKey (natD n) sc st.hs2 }, "ok ## handler2")
   | "ext" :: m :: p :: rest =>
     match parseVal rest with
     | some (v, []) =>
       let cur := (st.ext.lookup (natD m)).getD []
       ({ st with ext := setKey (natD m) (setKey (natD p) v cur) st.ext }, "ok ## ext")
     | _ => (st, "bad-op")
-  | ["exec", e] =>
-    let r := execute st.d (handlerTable st.hs) st.ext (e == "d" || boolOf e)   -- "d": the default, True
-    let isMut (n : Nat) : Bool := match st.hs.lookup n with | some (.ret _ _ true) => true | _ => false
-    let isRe (n : Nat) : Bool := match st.hs.lookup n with | some (.ret _ true _) => true | _ => false
-    match r.out with
-    | .ok recs =>
-      let inner := (r.calls.filter (isRe ·.name)).map fun _ => "ok"
-      (st, joinSp (["ok", "order=" ++ showList (recs.map (toString ·.name)), "calls=" ++ showCalls r.calls,
-        "mods=" ++ showSemi (recs.map fun r =>
-          s!"{r.name}<{if isMut r.name then "?" else showTVs r.inputs}|{showTVs r.outputs}>")]
-        ++ (if inner.isEmpty then [] else ["inner=" ++ showSemi inner]))
-        ++ " ## exec:ok")
-    | .error e =>
-      -- the exception of a raising handler is the one of the last invocation
-      let shown := match e with
-        | .handlerRaised =>
-          (match r.calls.getLast? with
-           | some c => (match st.hs.lookup c.name with
-                        | some (.raise cls) => "raise:" ++ cls
-                        | _ => showErr e)
-           | none => showErr e)
-        | _ => showErr e
-      let inner := (r.calls.filter (isRe ·.name)).map fun _ => shown
-      (st, joinSp ([shown, "calls=" ++ showCalls r.calls]
-        ++ (if inner.isEmpty then [] else ["inner=" ++ showSemi inner])) ++ " ## exec:" ++ errTag e)
+  | ["exec", e] => (st, runExec st st.hs e ++ " ## exec:" ++ execTag st st.hs e)
+  | ["exec2", e] => (st, runExec st st.hs2 e ++ " ## exec2 exec:" ++ execTag st st.hs2 e)
   | ["caps"] => (st, showList ((sortNat st.d.requiredCaps).map toString) ++ " ## caps")
   | ["caps2"] => (st, showList ((sortNat st.d2.requiredCaps).map toString) ++ " ## caps2")
   | "capsmut" :: _ => (st, "ok ## capsmut")     -- the caller mutates the set it was handed: no effect on anything
